@@ -73,7 +73,7 @@ def fromArg (tp : Option Function) (freevars : List PStr) (st : EncSt) : Arg →
   | .name s o => do let (t, i) ← st.names.add strEq s o; pure ({ st with names := t }, i)
   | .varname s o => do let (t, i) ← st.varnames.add strEq s o; pure ({ st with varnames := t }, i)
   | .free s => match indexOfStr s freevars with
-      | some i => pure (st, i)
+      | some i => pure (st, ((st.cellvars.len + i : Nat) : Int))
       | none => throw .raised
   | .cell s o => do let (t, i) ← st.cellvars.add strEq s o; pure ({ st with cellvars := t }, i)
   | .const c o => do let (t, i) ← fromConstArg tp st.consts c o; pure ({ st with consts := t }, i)
@@ -190,18 +190,25 @@ def encInit (tp : Option Function) : R EncSt := do
       | none => pure st
     | none => pure st
 
+def collectCells : FromArgs PStr → List Arg → R (FromArgs PStr)
+  | t, [] => pure t
+  | t, .cell s o :: as => do
+    let (t, _) ← t.add strEq s o
+    collectCells t as
+  | t, _ :: as => collectCells t as
+
 def blocksToBytes (v : Ver) (blocks : List (List Instr)) (addArgs : List Arg) (freevars : List PStr)
     (tp : Option Function) : R BlocksOut := do
   let st ← encInit tp
   let flat := blocks.flatten
   let starts := blockStarts blocks 0
+  -- the cellvars get their indices first (instruction operands, then additional args)
+  let cv ← collectCells st.cellvars (flat.map Instr.arg ++ addArgs)
+  let st := { st with cellvars := cv }
   let (st, args0) ← resolveArgs tp freevars st flat
   let njumps := (flat.filter fun i => isJump i.arg).length
   let args ← relax v flat starts (3 * njumps + 3) args0
   let st ← addAdditional tp freevars st addArgs
-  -- freevar bump
-  let ncell := st.cellvars.len
-  let args := (flat.zip args).map (fun (i, a) => match i.arg with | .free _ => a + ncell | _ => a)
   -- an operand that needs more than 4 code units cannot be assembled: Python loops over range(n_args),
   -- the model does the same, but n > 4 only comes from an explicit override
   let out := emit flat args 0
